@@ -345,7 +345,7 @@ impl<'a> IntoIterator for &'a mut TheoreticalIsotopicPattern {
 impl From<PeakList> for TheoreticalIsotopicPattern {
     #[inline]
     fn from(src: PeakList) -> Self {
-        let origin = src[0].mz;
+        let origin = src.first().map(|p| p.mz).unwrap_or(0.0);
         Self::new(src, origin)
     }
 }
